@@ -439,6 +439,22 @@ class SVal:
                 if c is True:
                     return self.branch(arm["body"], env2, depth)
             return ("opaque", "no arm matches")
+        if sv[0] == "slice" and n["arms"] and n["arms"][0]["pat"].get("k") == "slice" and n["arms"][0]["pat"].get("mid") is None and not n["arms"][0].get("guard"):
+            # `match *bytes { [a, b, c, d] => X, rest.. }`: the first arm is taken exactly when the slice has that many elements
+            env2 = dict(env)
+            c = self.bind_pat(n["arms"][0]["pat"], sv, env2)
+            if c is not None and c is not False and c[0] == "lenis":
+                first = self.branch(n["arms"][0]["body"], env2, depth)
+                rest = dict(n)
+                rest["arms"] = n["arms"][1:]
+                if len(rest["arms"]) == 1 and rest["arms"][0]["pat"].get("k") in ("wild", "bind"):
+                    env3 = dict(env)
+                    if rest["arms"][0]["pat"].get("k") == "bind":
+                        self.bind_pat(rest["arms"][0]["pat"], sv, env3)
+                    other = self.branch(rest["arms"][0]["body"], env3, depth)
+                else:
+                    other = self.match_value(sv, rest, env, depth) if rest["arms"] else ("opaque", "no arm matches")
+                return ("ite", c, first, other)
         arms = []
         for arm in n["arms"]:
             env2 = dict(env)
